@@ -98,6 +98,23 @@ def rule_exact(ck, only=None):
         st = a.single_term()
         if st is not None and st[1] == 1000 and 'total_seconds' in sym.show(a):
             good = True
+    if not good and isinstance(e, ast.BinOp) and isinstance(e.op, ast.Add):
+        # the same floor division written on the components of the (normalised) time difference E = dt - epoch:
+        # (E.days * 86400 + E.seconds) * 1000 + E.microseconds // 1000   - E.seconds and E.microseconds are never negative
+        deltas = {u(x.value) for x in ast.walk(e) if isinstance(x, ast.Attribute) and x.attr in ('days', 'seconds', 'microseconds')}
+        if len(deltas) == 1 and all(is_delta(x.value) for x in ast.walk(e) if isinstance(x, ast.Attribute) and x.attr in ('days', 'seconds', 'microseconds')):
+            E = deltas.pop()
+            txt = u(e).replace(E, 'E').replace('csep.utils.constants.SECONDS_PER_DAY', '86400').replace('SECONDS_PER_DAY', '86400')
+            Nn = sym.Normalizer()
+            try:
+                whole, frac = e.left, e.right
+                ok_frac = isinstance(frac, ast.BinOp) and isinstance(frac.op, ast.FloorDiv) and const_value(frac.right) == 1000 \
+                    and isinstance(frac.left, ast.Attribute) and frac.left.attr == 'microseconds'
+                wtxt = u(whole).replace(E, 'E').replace('csep.utils.constants.SECONDS_PER_DAY', '86400').replace('SECONDS_PER_DAY', '86400')
+                ok_whole = Nn.nf(wtxt) == Nn.nf('(E.days * 86400 + E.seconds) * 1000')
+                good = ok_frac and ok_whole
+            except Exception:
+                good = False
     (o.ok('exact integer milliseconds since 1970-01-01 UTC') if good else o.fail(why))
 
 
@@ -403,6 +420,16 @@ def rule_decimal_year(ck):
             ok = 'accumulation loop over calendar.monthrange for months 1..month-1'
         else:
             ok, why = _table_days(P, f, d, e)
+        if not ok:
+            # days from the first of the year to the first of the month, as a difference of proleptic ordinals
+            se = strip_shape(e)
+            def _first(c_, month):
+                return isinstance(c_, ast.Call) and isinstance(c_.func, ast.Attribute) and c_.func.attr == 'toordinal' and not c_.args \
+                    and isinstance(c_.func.value, ast.Call) and call_name(c_.func.value) in ('datetime.date', 'datetime.datetime') \
+                    and len(c_.func.value.args) == 3 and not c_.func.value.keywords \
+                    and u(c_.func.value.args[0]) == '%s.year' % d and u(c_.func.value.args[1]) == month and const_value(c_.func.value.args[2]) == 1
+            if isinstance(se, ast.BinOp) and isinstance(se.op, ast.Sub) and _first(se.left, '%s.month' % d) and _first(se.right, '1'):
+                ok = 'ordinal of the first of the month minus ordinal of January 1 of the same year'
     (o.ok('calendar.monthrange over months 1..month-1 of the same year' if ok is True else str(ok)) if ok else o.fail(why))
     # formula
     r = [x for x in returns(f) if x.value is not None and not (isinstance(x.value, ast.Constant))]
@@ -439,8 +466,11 @@ def rule_decimal_year(ck):
                 self.generic_visit(n)
                 return ast.Call(func=ast.Name(id='__phi__', ctx=ast.Load()), args=[n.body, n.orelse], keywords=[])
         us = kw(tds[0], 'microseconds') if len(tds) == 1 else None
-        good = us is not None and N.nf(_Phi().visit(sym.clone(us))) in want_us and \
-            'datetime.datetime(builtins.int(%s // 1), 1, 1, 0, 0, 0, 0)' % p in txt and txt.endswith('.replace(tzinfo=datetime.timezone.utc)')
+        # Jan 1, 00:00:00.000000 of the year: the trailing zeros may be written or left to the defaults
+        jan1 = any(isinstance(c, ast.Call) and call_name(c) == 'datetime.datetime' and not c.keywords and len(c.args) >= 3
+                   and N.nf(c.args[0]) == N.nf('builtins.int(%s // 1)' % p) and [const_value(a_) for a_ in c.args[1:3]] == [1, 1]
+                   and all(const_value(a_) == 0 for a_ in c.args[3:]) for c in ast.walk(e))
+        good = us is not None and N.nf(_Phi().visit(sym.clone(us))) in want_us and jan1 and txt.endswith('.replace(tzinfo=datetime.timezone.utc)')
         (o.ok('Jan 1 of the year + fraction * year length, tagged UTC') if good else
          o.fail('the inverse is `%s`, expected datetime(year,1,1) + timedelta(microseconds = year_length_us * fraction) in UTC' % txt[:120]))
 
